@@ -231,11 +231,16 @@ func (s *Updater) Apply(liveObject, configObject *typed.TypedValue, version fiel
 	} else {
 		ignoreFilter = s.IgnoreFilter[version]
 	}
+	pruneManagers := managers
 	if ignoreFilter != nil {
+		// Ignored fields are recorded for nobody, but pruning must not remove
+		// those the configuration applies now: prune sees the unfiltered set.
+		pruneManagers = managers.Copy()
+		pruneManagers[manager] = fieldpath.NewVersionedSet(set, version, true)
 		set = ignoreFilter.Filter(set)
 	}
 	managers[manager] = fieldpath.NewVersionedSet(set, version, true)
-	newObject, err = s.prune(newObject, managers, manager, lastSet)
+	newObject, err = s.prune(newObject, pruneManagers, manager, lastSet)
 	if err != nil {
 		return nil, fieldpath.ManagedFields{}, fmt.Errorf("failed to prune fields: %v", err)
 	}
